@@ -105,7 +105,7 @@ func c01(c *eng.Ctx, r *eng.Report) {
 	r.Explain = "Replica determinism of block execution as cone purity plus ordering rules: " +
 		"R1.1 the call-graph cone of VMExecutor.Execute and of the two root functions applied to its output, calcReceiptsTree and calcTxTree (≈1,090 functions, cut at logging/mysql/notify) contains no unreviewed nondeterminism source — map range, wall clock, goroutine, select/channel, sync.Map.Range, math/rand, crypto/rand, environment reads, package-variable stores — and every reviewed hit still has the mechanically checkable shape of its class (no early exit from a map range, appended slices sorted before use, clock value only on the casting edge or only into a logger); reads of the block/group stores from the cone are the reviewed ones; " +
 		"R1.6 every module type whose methods write their own receiver inside the cone is a reviewed per-execution, state or value type (never an executor/manager/service instance that outlives the execution), and no package-level variable holds an instance of one; " +
-		"R1.2 transactions are sorted before execution unless casting, and the proposer sorts before running them; R1.3 every failed executor run is followed by RevertToSnapshot of the snapshot taken immediately before it; R1.4 no fused multiply-add shape in floating-point code of the cone; R1.5 receipt JSON contains no order-unstable map. " +
+		"R1.7 (= R11.17) what a contract call costs does not depend on how many EVMs this process built before: the jump table an interpreter re-prices for its fork is built for it by newInstructionSet(), from no package-level table or operation (the adjusters write through *operation pointers — a mutation of shared process state that no package-variable store reveals); R1.2 transactions are sorted before execution unless casting, and the proposer sorts before running them; R1.3 every failed executor run is followed by RevertToSnapshot of the snapshot taken immediately before it; R1.4 no fused multiply-add shape in floating-point code of the cone; R1.5 receipt JSON contains no order-unstable map. " +
 		"Not decided: that the deterministic code computes the right root; the sub-chain reward call; float rounding across architectures beyond R1.4."
 	r.Assume = []string{"VTA call graph over-approximates callees", "logging, mysql index and notify bus do not feed consensus state", "Go sorts map keys in encoding/json"}
 	cone := c01Cone(c, r, "R1.1")
@@ -114,6 +114,15 @@ func c01(c *eng.Ctx, r *eng.Report) {
 	}
 	c01Purity(c, r, cone)
 	c01ReceiverState(c, r, cone)
+	// R1.7: the opcode price table belongs to one interpreter (C11's R11.17 under this property's id): the fork
+	// adjusters write through the table's *operation pointers, which no store to a package variable shows
+	sub := eng.NewReport(r.Prop, r.Tier)
+	c11OwnJumpTable(c, sub)
+	for _, o := range sub.Obls {
+		o.Rule = "R1.7"
+		r.Obls = append(r.Obls, o)
+	}
+	r.Min("R1.7", 2)
 	c01StoreReads(c, r, cone)
 	c01Order(c, r)
 	c01Bracket(c, r)
